@@ -5,6 +5,7 @@ use crate::infra::{guard, unrank, Ctx, Fail};
 use crate::refmodel::*;
 use ff::{Field, LegendreSymbol, PrimeField, SqrtField};
 use num_bigint::BigUint;
+use num_traits::Zero;
 use pairing_plus::bls12_381::{Fq, Fq2, Fr};
 use pairing_plus::signum::{Sgn0Result, Signum0};
 use serde_json::json;
@@ -275,6 +276,47 @@ pub fn run(ctx: &Ctx) -> (&'static str, &'static str) {
             })
         },
     );
+    // sgn0 / order of y, -y on limb-boundary components: c0 and c1 each range over the C08 boundary alphabet
+    // (multiples of 2^64, 2^128, ... 2^320, values with zero low limbs, zero / all-ones limbs)
+    {
+        let mut rngb = ctx.rng("c18.fq2.boundary");
+        let mut comp: Vec<BigUint> = alpha::field_values(qq, 6, &mut rngb, 4);
+        for k in 1..6usize {
+            for m in [1u32, 2, 3] {
+                comp.push((alpha::pow2(64 * k) * m) % qq);
+                comp.push((alpha::pow2(64 * k) * m + alpha::pow2(320)) % qq);
+            }
+        }
+        let comp = alpha::dedup(comp);
+        let nb = comp.len() as u64;
+        let rad = [nb, nb];
+        ctx.sweep(
+            "Fq2.sgn0_limb_boundaries",
+            crate::infra::space(&rad),
+            |i| {
+                let d = unrank(i, &rad);
+                json!({"c0": hex(&comp[d[0]]), "c1": hex(&comp[d[1]])})
+            },
+            |i| {
+                let d = unrank(i, &rad);
+                let a = Q2::new(vec![Q1::new_ref(&comp[d[0]]), Q1::new_ref(&comp[d[1]])]);
+                let fa = fq2_of(&a);
+                if (fa.sgn0() == Sgn0Result::Negative) != (a.sgn0() == 1) {
+                    return Err(Fail::new("Fq2 sgn0 differs from RFC 9380 sgn0 (m = 2) on a limb-boundary element"));
+                }
+                if !a.is_zero() {
+                    let mut neg = fa;
+                    neg.negate();
+                    let na = a.neg();
+                    let want_gt = (a.c(1).int(), a.c(0).int()) > (na.c(1).int(), na.c(0).int());
+                    if (fa > neg) != want_gt || (fa > neg) == (neg > fa) {
+                        return Err(Fail::new("Fq2: order of y, -y wrong on a limb-boundary element"));
+                    }
+                }
+                Ok(if comp[d[0]].is_zero() { "c0 = 0 (c1 decides sgn0)" } else if (&comp[d[0]] % alpha::pow2(64)).is_zero() { "c0 non-zero with zero low limb(s)" } else { "generic" })
+            },
+        );
+    }
     // ordering on all pairs of a sub-alphabet: (c1, c0) lexicographic on canonical integers
     let m = ctx.tier.pick(120usize, 400).min(els.len());
     let rad = [m as u64, m as u64];
